@@ -425,6 +425,7 @@ fn main() {
                 nontrivial.insert((c.name(), kind));
                 *outcomes.entry(format!("tracked:{kind}")).or_default() += 1;
             } else {
+                nontrivial.insert((c.name(), kind));
                 missing.push((p.clone(), *kind));
                 *outcomes.entry(format!("UNTRACKED:{kind}")).or_default() += 1;
             }
